@@ -17,6 +17,7 @@ type havocRec struct {
 	oldTerm string
 	cond    func(addr string) string // "unchanged at addr" condition
 	id      int
+	bound   string // allocation frontier right after the havoc: every reference stored in newBase is below it
 }
 
 type Heap struct {
@@ -66,6 +67,11 @@ type State struct {
 	dead   bool
 	depth  int
 	errfacts map[string]bool
+	univ     []*universal
+	terms    map[string][]string
+	termSet  map[string]bool
+	noTrig   bool
+	pendingBound []string
 }
 
 func (s *State) clone() *State {
@@ -89,6 +95,17 @@ func (s *State) clone() *State {
 		n.loops[k] = v
 	}
 	n.defers = s.defers[:len(s.defers):len(s.defers)]
+	n.univ = s.cloneUniv()
+	if s.terms != nil {
+		n.terms = make(map[string][]string, len(s.terms))
+		for k, v := range s.terms {
+			n.terms[k] = v[:len(v):len(v)]
+		}
+		n.termSet = make(map[string]bool, len(s.termSet))
+		for k := range s.termSet {
+			n.termSet[k] = true
+		}
+	}
 	return n
 }
 
@@ -193,6 +210,47 @@ func (s *State) havocKey(key string, unchanged func(addr string) string) {
 	s.x.havocCtr++
 	s.heap.hv[key] = append(s.heap.hv[key], havocRec{newBase: nb, oldTerm: old, cond: unchanged, id: s.x.havocCtr})
 	s.heap.m[key] = nb
+	s.pendingBound = append(s.pendingBound, key)
+}
+
+// sealHavoc records the allocation frontier valid for the havocs performed
+// since the last seal (call after the frontier has been advanced).
+func (s *State) sealHavoc() {
+	for _, key := range s.pendingBound {
+		hv := s.heap.hv[key]
+		if n := len(hv); n > 0 && hv[n-1].bound == "" {
+			hv = append(hv[:n-1:n-1], hv[n-1])
+			hv[n-1].bound = s.alloc
+			s.heap.hv[key] = hv
+		}
+	}
+	s.pendingBound = nil
+}
+
+// refClosure: references stored in the heap point to allocated objects: for
+// the entry heap below alloc0, for a havocked heap below the frontier that
+// followed the havoc. Instantiated at the address being read.
+func (s *State) refClosure(hp *Heap, key, addr string, inner ...string) {
+	ik := "rc|" + key + "|" + addr + "|" + strings.Join(inner, "|")
+	if s.inst[ik] {
+		return
+	}
+	s.inst[ik] = true
+	one := func(base, bound string) {
+		t := sel(base, addr)
+		for _, i := range inner {
+			t = sel(t, i)
+		}
+		s.assume(and(app("<=", "0", t), app("<", t, bound)))
+	}
+	sym := "H0_" + sanitize(key)
+	s.x.declare(sym, s.x.heapSort(key))
+	one(sym, s.x.alloc0)
+	for _, r := range hp.hv[key] {
+		if r.bound != "" {
+			one(r.newBase, r.bound)
+		}
+	}
 }
 
 // scalar heap cells (globals, ghost variables)
@@ -283,6 +341,14 @@ func (s *State) loadFrom(hp *Heap, p Value) Value {
 		}
 		return Value{T: t, S: e}
 	}
+	if at, ok := arrayPointee(p); ok && p.LV == nil {
+		if kindOf(at) != kArray {
+			panic(unsupported("load of whole array of " + typeKey(at.Elem())))
+		}
+		prefix := "E:" + typeKey(at.Elem())
+		s.regLeaves(prefix, at.Elem(), true)
+		return Value{T: at, S: s.read(hp, prefix, p.S)}
+	}
 	prefix, addr, inner, t := s.cell(p)
 	ls := s.regLeaves(prefix, t, len(inner) > 0)
 	terms := make([]string, len(ls))
@@ -291,8 +357,20 @@ func (s *State) loadFrom(hp *Heap, p Value) Value {
 		if hp == s.heap {
 			s.rangeAssume(l, terms[i])
 		}
+		if l.K == kRef {
+			s.refClosure(hp, prefix+l.Path, addr, inner...)
+		}
 	}
 	return build(t, &terms)
+}
+
+func arrayPointee(p Value) (*types.Array, bool) {
+	pt, ok := p.T.Underlying().(*types.Pointer)
+	if !ok {
+		return nil, false
+	}
+	at, ok := pt.Elem().Underlying().(*types.Array)
+	return at, ok
 }
 
 func (s *State) load(p Value) Value { return s.loadFrom(s.heap, p) }
@@ -313,6 +391,15 @@ func (s *State) store(p Value, v Value) {
 		arr := s.load(*p.LV.ArrPtr)
 		arr.S = sto(arr.S, p.LV.Idx, v.S)
 		s.store(*p.LV.ArrPtr, arr)
+		return
+	}
+	if at, ok := arrayPointee(p); ok && p.LV == nil {
+		if kindOf(at) != kArray {
+			panic(unsupported("store of whole array of " + typeKey(at.Elem())))
+		}
+		prefix := "E:" + typeKey(at.Elem())
+		s.regLeaves(prefix, at.Elem(), true)
+		s.writeWhole(prefix, p.S, v.S)
 		return
 	}
 	prefix, addr, inner, t := s.cell(p)
@@ -340,6 +427,14 @@ func (s *State) allocRef() string {
 func (s *State) allocObj(t types.Type) Value {
 	r := s.allocRef()
 	p := Value{T: types.NewPointer(t), S: r}
+	if at, ok := t.Underlying().(*types.Array); ok {
+		// arrays behind pointers live in the element heaps, like slice backing arrays
+		prefix := "E:" + typeKey(at.Elem())
+		for _, l := range s.regLeaves(prefix, at.Elem(), true) {
+			s.writeWhole(prefix+l.Path, r, "((as const "+arrSort(sInt, l.Sort)+") "+zeroLeaf(l)+")")
+		}
+		return p
+	}
 	s.store(p, zeroValue(t))
 	return p
 }
@@ -379,6 +474,7 @@ func (s *State) mapKeys(mt *types.Map) (has, ln string, vals []string, ls []leaf
 
 func (s *State) mapLookup(hp *Heap, m Value, key string) (Value, string) {
 	mt := m.T.Underlying().(*types.Map)
+	s.trigger(mapKeySort(mt), key)
 	has, _, vals, ls := s.mapKeys(mt)
 	present := s.read(hp, has, m.S, key)
 	terms := make([]string, len(ls))
@@ -386,6 +482,9 @@ func (s *State) mapLookup(hp *Heap, m Value, key string) (Value, string) {
 		raw := s.read(hp, vals[i], m.S, key)
 		if hp == s.heap {
 			s.rangeAssume(l, raw)
+		}
+		if l.K == kRef {
+			s.refClosure(hp, vals[i], m.S, key)
 		}
 		terms[i] = ite(present, raw, zeroLeaf(l))
 	}
@@ -405,6 +504,7 @@ func (s *State) mapLen(hp *Heap, m Value) string {
 
 func (s *State) mapUpdate(m Value, key string, v Value) {
 	mt := m.T.Underlying().(*types.Map)
+	s.trigger(mapKeySort(mt), key)
 	has, ln, vals, ls := s.mapKeys(mt)
 	present := s.read(s.heap, has, m.S, key)
 	oldLen := s.mapLen(s.heap, m)
@@ -442,6 +542,7 @@ func (s *State) makeMap(t types.Type) Value {
 
 func (s *State) elemPtr(sl Value, idx string) Value {
 	st := sl.T.Underlying().(*types.Slice)
+	s.trigger(sInt, idx)
 	return Value{T: types.NewPointer(st.Elem()), S: "0",
 		LV: &LVal{Elem: true, Base: sl.F[0].S, Idx: app("+", sl.F[1].S, idx), ElemT: st.Elem()}}
 }
